@@ -1,5 +1,5 @@
 (** Correspondence and monitors for C10 (malformed client input). *)
-From GV Require Import Base.Prelude Model.Upload Proofs.UploadProofs.
+From GV Require Import Base.Prelude Model.Upload Model.UploadForm Proofs.UploadProofs.
 Open Scope string_scope.
 Open Scope list_scope.
 
@@ -64,3 +64,44 @@ Definition up_monitor (c : up_case) : bool :=
 (** What the pinned commit did on the same input (for classifying a failure as the known defect). *)
 Definition up_legacy_panics (c : up_case) : bool :=
   is_panic (add_upload false (uc_prefix c) (uc_vars c) (uc_path c) 7).
+
+(** ---- the multipart form handler on real HTTP requests against Model.UploadForm ---- *)
+Record form_case := {
+  fc_form : form;                (* the request as mime/multipart presents it, classified by the harness *)
+  fc_accepted : bool;            (* answered 200 with data, the operation ran *)
+  fc_leftover : nat;             (* files left in the private temporary directory after the handler returned *)
+  fc_delivered : list nat;       (* fids of the uploads found in the variables, in key / index order *)
+  fc_recovered : bool }.         (* the recover hook ran *)
+
+(** uploads in a value, in order *)
+Fixpoint uploads_of (v : jv) {struct v} : list nat :=
+  match v with
+  | JVUpload u => [u]
+  | JVList l => (fix go (l : list jv) : list nat := match l with [] => [] | x :: r => uploads_of x ++ go r end) l
+  | JVMap m => (fix go (m : list (string * jv)) : list nat := match m with [] => [] | (_, x) :: r => uploads_of x ++ go r end) m
+  | _ => []
+  end.
+Definition fid_of (rd : list (nat * nat)) (r : nat) : nat :=
+  match find (fun p => Nat.eqb (fst p) r) rd with Some p => snd p | None => 0%nat end.
+Definition delivered_fids (o : fout) : list nat :=
+  match fo_result o with
+  | FAccepted (VMap m) => map (fid_of (fo_readers o)) (uploads_of (JVMap m))
+  | _ => []
+  end.
+
+Definition form_corr (c : form_case) : bool :=
+  let o := run_form false (fc_form c) in
+  Bool.eqb (accepted o) (fc_accepted c) && Nat.eqb (List.length (leaked o)) (fc_leftover c) &&
+  (if accepted o then list_eqb Nat.eqb (delivered_fids o) (fc_delivered c) else true).
+
+(** the property on what is observed: never the recover hook, no temporary file left, an oversized request is
+    not executed, every delivered upload is a file part of the request *)
+Definition part_fids (f : form) : list nat := flat_map (fun p => match p with PFile _ fid => [fid] | _ => [] end) (fm_parts f).
+Definition form_mon (c : form_case) : bool :=
+  negb (fc_recovered c) && Nat.eqb (fc_leftover c) 0 && negb (fm_over (fc_form c) && fc_accepted c) &&
+  forallb (fun fid => existsb (Nat.eqb fid) (part_fids (fc_form c))) (fc_delivered c).
+Definition form_monmodel (c : form_case) : bool :=
+  let o := run_form false (fc_form c) in
+  Nat.eqb (List.length (leaked o)) 0 && negb (fm_over (fc_form c) && accepted o) &&
+  match fo_result o with FPanicked => false | _ => true end &&
+  forallb (fun fid => existsb (Nat.eqb fid) (part_fids (fc_form c))) (delivered_fids o).
